@@ -367,6 +367,7 @@ def a9(ctx):
     if not isinstance(table, ast.Dict):
         raise AnalysisError("xandikos.collation.collations is no longer a dict display")
     obs = []
+    _locals = {}
 
     def chain(e, param, depth=0):
         """method names applied to *param* in e (innermost first), looking through one-expression helper functions of the
@@ -374,6 +375,8 @@ def a9(ctx):
         if depth > 6:
             return None
         if isinstance(e, ast.Name):
+            if e.id != param and e.id in _locals:
+                return chain(_locals[e.id], param, depth + 1)     # `folded = _fold(a)` ... `_match(folded, ...)`
             return [] if e.id == param else None
         if isinstance(e, ast.Call) and isinstance(e.func, ast.Attribute):
             inner = chain(e.func.value, param, depth + 1)
@@ -400,6 +403,15 @@ def a9(ctx):
             raise AnalysisError("collation %s is not a lambda / function of the module" % name)
         params = [a.arg for a in fn.args.args]
         body = fn.body if isinstance(fn, ast.Lambda) else next((s_.value for s_ in fn.body if isinstance(s_, ast.Return)), None)
+        _locals.clear()
+        if isinstance(fn, ast.FunctionDef):
+            cnt = {}
+            for s_ in fn.body:
+                if isinstance(s_, ast.Assign) and len(s_.targets) == 1 and isinstance(s_.targets[0], ast.Name):
+                    cnt[s_.targets[0].id] = cnt.get(s_.targets[0].id, 0) + 1
+                    _locals[s_.targets[0].id] = s_.value
+            for k_ in [k_ for k_, c_ in cnt.items() if c_ != 1 or k_ in params]:
+                _locals.pop(k_, None)
         problem = None
         if not (isinstance(body, ast.Call) and len(body.args) >= 2 and len(params) >= 2):
             raise AnalysisError("collation %s: body is not a call with the two operands (not modelled)" % name)
